@@ -946,6 +946,12 @@ func buildFlagFault(w *World, args []string, kind string, add addFn, feature str
 		if !filepath.IsAbs(abs) {
 			abs = filepath.Join(w.Cwd, abs)
 		}
+		if par := filepath.Dir(abs); kind == "output-parent-is-file" && (par == "/" || strings.HasPrefix(w.Cwd+"/", par+"/") || strings.HasPrefix(w.Root+"/", par+"/")) {
+			// the parent is the root directory, the working directory or an ancestor of the schemas:
+			// it cannot be turned into a file; give the output a directory of its own
+			o.Output = "outp/gen.go"
+			abs = filepath.Join(w.Cwd, o.Output)
+		}
 		var ex []simrt.Node
 		for _, n := range w.Extra {
 			if n.Path != abs {
